@@ -25,7 +25,7 @@ Fixpoint app_seg (g : list seg) (cur : Z) (n : node) : list seg :=
   end.
 
 Definition seg_trace (s : Z) (g : list seg) : list ecall :=
-  flat_map (fun sg : seg => if fst sg =? s then map node_ecall (snd sg) else []) g.
+  flat_map (fun sg : seg => if fst sg =? s then flat_map node_ecalls (snd sg) else []) g.
 
 Lemma NoDup_app_snoc_helper : forall (l : list Z) x, NoDup l -> ~ In x l -> NoDup (l ++ [x]).
 Proof.
@@ -70,7 +70,7 @@ Proof.
   - apply IH; assumption.
 Qed.
 
-Lemma seg_trace_cons : forall s t ns r, seg_trace s ((t, ns) :: r) = (if t =? s then map node_ecall ns else []) ++ seg_trace s r.
+Lemma seg_trace_cons : forall s t ns r, seg_trace s ((t, ns) :: r) = (if t =? s then flat_map node_ecalls ns else []) ++ seg_trace s r.
 Proof. reflexivity. Qed.
 
 Lemma seg_trace_notin : forall s r, ~ In s (ids r) -> seg_trace s r = [].
@@ -80,12 +80,12 @@ Proof.
 Qed.
 
 Lemma seg_trace_app_seg : forall g cur n s, NoDup (ids g) -> In cur (ids g) ->
-  seg_trace s (app_seg g cur n) = seg_trace s g ++ (if cur =? s then [node_ecall n] else []).
+  seg_trace s (app_seg g cur n) = seg_trace s g ++ (if cur =? s then node_ecalls n else []).
 Proof.
   induction g as [|[t ns] r IH]; intros cur n s ND HI; [contradiction|].
   cbn [ids map fst] in *. inversion ND; subst. cbn [app_seg]. destruct (t =? cur) eqn:E.
   - apply Z.eqb_eq in E; subst t. rewrite !seg_trace_cons. destruct (cur =? s) eqn:E2.
-    + apply Z.eqb_eq in E2; subst s. rewrite seg_trace_notin by assumption. rewrite map_app. cbn. now rewrite !app_nil_r.
+    + apply Z.eqb_eq in E2; subst s. rewrite seg_trace_notin by assumption. rewrite flat_map_app. cbn. now rewrite !app_nil_r.
     + now rewrite app_nil_r.
   - rewrite !seg_trace_cons. destruct HI as [HI|HI]; [apply Z.eqb_neq in E; contradiction|].
     rewrite IH by assumption. now rewrite app_assoc.
@@ -219,22 +219,38 @@ Proof.
     rewrite IH by (intro; apply H; now right). rewrite flat_cons. cbn [length]. rewrite app_length. f_equal. lia.
 Qed.
 
-(* ------------------------------------------------------------------ projections *)
-Lemma node_ecall_nonsec : forall n, is_section n = false -> forall t, node_ecall n <> ESection t.
-Proof. intros [k c] H t. unfold is_section in H. cbn in *. destruct k; try discriminate. Qed.
+Lemma flat_cons_early : forall t ns r, flat ((t, ns) :: r) = sec_node t :: ns ++ flat r.
+Proof. reflexivity. Qed.
 
-Lemma project_nonsec_app : forall ns c s R, nonsec_list ns ->
-  project_from c s (map node_ecall ns ++ R) = (if c =? s then map node_ecall ns else []) ++ project_from c s R.
+(* ------------------------------------------------------------------ projections *)
+Definition secfree (es : list ecall) : Prop := forall t, ~ In (ESection t) es.
+
+Lemma node_ecalls_nonsec : forall n, is_section n = false -> secfree (node_ecalls n).
 Proof.
-  induction ns; intros c s R H; cbn; [destruct (c =? s); reflexivity|]. inversion H; subst.
-  pose proof (node_ecall_nonsec a H2) as HA.
-  destruct (node_ecall a) eqn:EA; try (exfalso; eapply HA; reflexivity); cbn; rewrite IHns by assumption; destruct (c =? s); reflexivity.
+  intros [k c] H t. unfold is_section in H. cbn in *. destruct k; try discriminate; cbn; intuition discriminate.
 Qed.
 
-Lemma project_flat : forall g c s, nonsec g -> project_from c s (map node_ecall (flat g)) = seg_trace s g.
+Lemma project_secfree_app : forall es c s R, secfree es ->
+  project_from c s (es ++ R) = (if c =? s then es else []) ++ project_from c s R.
 Proof.
-  induction g as [|[t ns] r IH]; intros c s H; cbn; [reflexivity|]. inversion H; subst. cbn [fst snd] in *.
-  rewrite map_app. rewrite project_nonsec_app by assumption. fold (flat r). rewrite IH by assumption. reflexivity.
+  induction es as [|e es IH]; intros c s R H; cbn [app]; [destruct (c =? s); reflexivity|].
+  assert (H' : secfree es) by (intros t Ht; apply (H t); now right).
+  destruct e; try (exfalso; apply (H s0); now left); cbn [project_from]; rewrite IH by exact H'; destruct (c =? s); reflexivity.
+Qed.
+
+Lemma project_nonsec_app : forall ns c s R, nonsec_list ns ->
+  project_from c s (flat_map node_ecalls ns ++ R) = (if c =? s then flat_map node_ecalls ns else []) ++ project_from c s R.
+Proof.
+  induction ns; intros c s R H; cbn [flat_map]; [destruct (c =? s); reflexivity|]. inversion H; subst.
+  rewrite <- app_assoc. rewrite project_secfree_app by (apply node_ecalls_nonsec; assumption). rewrite IHns by assumption.
+  destruct (c =? s); [now rewrite app_assoc|reflexivity].
+Qed.
+
+Lemma project_flat : forall g c s, nonsec g -> project_from c s (flat_map node_ecalls (flat g)) = seg_trace s g.
+Proof.
+  induction g as [|[t ns] r IH]; intros c s H; [reflexivity|]. inversion H; subst. cbn [fst snd] in *.
+  rewrite flat_cons_early. cbn [flat_map node_ecalls n_kind sec_node app project_from]. rewrite flat_map_app.
+  rewrite project_nonsec_app by assumption. rewrite IH by assumption. reflexivity.
 Qed.
 
 Fixpoint cur_after (cur : Z) (es : list ecall) : Z :=
@@ -273,7 +289,7 @@ Qed.
 
 (* recording one non-section node at the cursor *)
 Lemma inv_add_node : forall b g cur n, Inv b g cur -> is_section n = false ->
-  Inv (add_node n b) (app_seg g cur n) cur /\ forall s, seg_trace s (app_seg g cur n) = seg_trace s g ++ (if cur =? s then [node_ecall n] else []).
+  Inv (add_node n b) (app_seg g cur n) cur /\ forall s, seg_trace s (app_seg g cur n) = seg_trace s g ++ (if cur =? s then node_ecalls n else []).
 Proof.
   intros b g cur n I Hn. destruct I as [IA IC II IN IND IL].
   destruct (seg_end_in g cur 0 II) as [e He].
@@ -295,17 +311,23 @@ Definition step_goal (b' : bstate) (p' : pend) (g : list seg) (cur : Z) (es : li
              (forall s, seg_trace s g' = seg_trace s g ++ project_from cur s es) /\
              (forall x, In x (ids g') <-> In x (ids g) \/ In (ESection x) es).
 
-(* a call that creates exactly one non-section node n and performs the single effective call [node_ecall n] *)
-Lemma step_one_node : forall b b0 p' g cur n, Inv b g cur -> same_list_state b0 b -> is_section n = false ->
-  pend_match (add_node n b0) p' -> (forall t, node_ecall n <> ESection t) ->
-  step_goal (add_node n b0) p' g cur [node_ecall n].
+Lemma cur_after_secfree : forall es cur, secfree es -> cur_after cur es = cur.
 Proof.
-  intros b b0 p' g cur n I HS Hn HP HNS. exists (app_seg g cur n).
+  induction es as [|e es IH]; intros cur H; [reflexivity|].
+  assert (H' : secfree es) by (intros t Ht; apply (H t); now right).
+  destruct e; try (exfalso; apply (H s); now left); cbn [cur_after]; apply IH; exact H'.
+Qed.
+
+(* a call that creates exactly one non-section node n and performs the effective calls [node_ecalls n] *)
+Lemma step_one_node : forall b b0 p' g cur n, Inv b g cur -> same_list_state b0 b -> is_section n = false ->
+  pend_match (add_node n b0) p' -> step_goal (add_node n b0) p' g cur (node_ecalls n).
+Proof.
+  intros b b0 p' g cur n I HS Hn HP. exists (app_seg g cur n).
   destruct (inv_add_node b0 g cur n (inv_transfer _ _ _ _ I HS) Hn) as [J1 J2].
-  assert (HC : cur_after cur [node_ecall n] = cur). { cbn. destruct (node_ecall n) eqn:E; try reflexivity. exfalso. eapply HNS. reflexivity. }
-  rewrite HC. split; [exact J1|]. split; [exact HP|]. split.
-  - intros s. rewrite J2. f_equal. cbn. destruct (node_ecall n) eqn:E; try (destruct (cur =? s); reflexivity). exfalso. eapply HNS. reflexivity.
-  - intros x. rewrite ids_app_seg. cbn. split; [tauto|]. intros [H|[H|[]]]; [assumption|]. exfalso. eapply HNS. exact H.
+  pose proof (node_ecalls_nonsec n Hn) as SF.
+  rewrite (cur_after_secfree _ cur SF). split; [exact J1|]. split; [exact HP|]. split.
+  - intros s. rewrite J2. f_equal. rewrite <- (app_nil_r (node_ecalls n)) at 2. rewrite project_secfree_app by exact SF. cbn [project_from]. now rewrite app_nil_r.
+  - intros x. rewrite ids_app_seg. split; [tauto|]. intros [H|H]; [assumption|]. exfalso. eapply SF. exact H.
 Qed.
 
 Lemma step_no_node : forall b b' p' g cur, Inv b g cur -> same_list_state b' b -> pend_match b' p' -> step_goal b' p' g cur [].
@@ -316,10 +338,29 @@ Qed.
 Lemma sls_refl : forall b, same_list_state b b.
 Proof. intros. unfold same_list_state. tauto. Qed.
 
-Lemma do_bind_ok : forall l b b' , do_bind l b = (b', kOk) -> b' = add_node (label_node l) (with_pool b (remove_first (is_label_id l) (pool b))).
+Lemma do_bind_ok : forall l b b' , do_bind l b = (b', kOk) -> pool b = [] -> b' = add_node (label_node l) (with_pool b []).
 Proof.
-  intros l b b' H. unfold do_bind in H. destruct ((l <? 0) || (nlabels b <=? l)); [inversion H|].
+  intros l b b' H HP. unfold do_bind in H. rewrite HP in H. destruct ((l <? 0) || (nlabels b <=? l)); [inversion H|].
   destruct (existsb (is_label_id l) (active b)); inversion H. reflexivity.
+Qed.
+
+(* recording never puts anything into the pool of removed nodes *)
+Lemma pool_nil_step : forall b c, pool b = [] -> emitter c -> pool (fst (step b c)) = [].
+Proof.
+  intros b c HP HE. destruct c; cbn [step]; try discriminate HE; try exact HP.
+  - unfold do_bind. rewrite HP. destruct ((l <? 0) || (nlabels b <=? l)); [exact HP|]. destruct (existsb (is_label_id l) (active b)); [exact HP|reflexivity].
+  - unfold do_embed_array. destruct (final_type_size ty (regsize b)); exact HP.
+  - destruct (valid_label_size sz); exact HP.
+  - destruct (valid_label_size sz); exact HP.
+  - destruct ((l <? 0) || (nlabels b <=? l)); [exact HP|]. unfold do_bind. cbn [pool add_node with_list]. rewrite HP. cbn [nlabels add_node with_list].
+    destruct ((l <? 0) || (nlabels b <=? l)); [cbn; exact HP|].
+    destruct (existsb (is_label_id l) (active (add_node (mkNode (NAlign kAlignData align) None) b))); cbn; [exact HP|].
+    destruct (kOk =? kOk); reflexivity.
+  - unfold do_section. destruct ((s <? 0) || (nsections b <=? s)); [exact HP|].
+    destruct (find_index (is_section_id s) (active b)); cbn [fst].
+    + simpl_b. destruct (update_links_list b) as (_ & _ & UP). rewrite UP. exact HP.
+    + simpl_b. rewrite HP. reflexivity.
+  - destruct (l =? nlabels b); exact HP.
 Qed.
 
 Lemma do_bind_err : forall l b, snd (do_bind l b) <> kOk -> fst (do_bind l b) = b.
@@ -391,10 +432,10 @@ Qed.
 Lemma pend_match_add_node : forall n b p, pend_match b p -> pend_match (add_node n b) p.
 Proof. intros. exact H. Qed.
 
-Lemma record_step : forall b p g cur c, Inv b g cur -> pend_match b p -> emitter c -> snd (step b c) = kOk ->
+Lemma record_step : forall b p g cur c, Inv b g cur -> pend_match b p -> pool b = [] -> emitter c -> snd (step b c) = kOk ->
   step_goal (fst (step b c)) (fst (front p c)) g cur (snd (front p c)).
 Proof.
-  intros b p g cur c I HP HE HOK. pose proof HP as (P1 & P2 & P3 & P4).
+  intros b p g cur c I HP HPL HE HOK. pose proof HP as (P1 & P2 & P3 & P4).
   destruct c; cbn [step front fst snd] in *; try discriminate HE.
   - (* new label *) apply (step_no_node b); [exact I | unfold same_list_state; cbn; tauto | exact HP].
   - apply (step_no_node b); [exact I | unfold same_list_state; cbn; tauto | exact HP].
@@ -403,49 +444,54 @@ Proof.
   - apply (step_no_node b); [exact I | unfold same_list_state; cbn; tauto | unfold pend_match; cbn; tauto].
   - apply (step_no_node b); [exact I | unfold same_list_state; cbn; tauto | unfold pend_match; cbn; tauto].
   - (* emit *) unfold do_emit. cbn [fst].
-    replace (EInst id (clear_reserved (q_opts p)) (q_exsig p) (q_exid p) (canon_ops o0 o1 o2 o3 o4 o5) (dup_comment (q_comment p)))
-      with (node_ecall (inst_node b id o0 o1 o2 o3 o4 o5)) by (rewrite inst_node_faithful, P1, P2, P3, P4; reflexivity).
-    apply (step_one_node b); [exact I | unfold same_list_state; cbn; tauto | reflexivity | unfold pend_match; cbn; tauto | intros t; rewrite inst_node_faithful; discriminate].
-  - (* bind *) destruct (do_bind l b) as [b' e] eqn:EB. cbn [fst snd] in *. subst e. apply do_bind_ok in EB. subst b'.
-    apply (step_one_node b (with_pool b (remove_first (is_label_id l) (pool b))) p g cur (label_node l));
-      [exact I | unfold same_list_state; cbn; tauto | reflexivity | exact HP | intros t; discriminate].
-  - (* align *) apply (step_one_node b b p g cur (mkNode (NAlign m n) None)); [exact I | apply sls_refl | reflexivity | exact HP | intros t; discriminate].
-  - (* embed *) apply (step_one_node b b p g cur (data_node kTypeUInt8 1 (Z.of_nat (length d)) 1 d)); [exact I | apply sls_refl | reflexivity | exact HP | intros t; discriminate].
+    replace [EInst id (clear_reserved (q_opts p)) (q_exsig p) (q_exid p) (canon_ops o0 o1 o2 o3 o4 o5) (dup_comment (q_comment p))]
+      with (node_ecalls (inst_node b id o0 o1 o2 o3 o4 o5)) by (rewrite inst_node_faithful, P1, P2, P3, P4; reflexivity).
+    apply (step_one_node b); [exact I | unfold same_list_state; cbn; tauto | reflexivity | unfold pend_match; cbn; tauto].
+  - (* bind *) destruct (do_bind l b) as [b' e] eqn:EB. cbn [fst snd] in *. subst e. apply do_bind_ok in EB; [|exact HPL]. subst b'.
+    apply (step_one_node b (with_pool b []) p g cur (label_node l));
+      [exact I | unfold same_list_state; cbn; tauto | reflexivity | exact HP].
+  - (* align *) apply (step_one_node b b p g cur (mkNode (NAlign m n) None)); [exact I | apply sls_refl | reflexivity | exact HP].
+  - (* embed *) apply (step_one_node b b p g cur (data_node kTypeUInt8 1 (Z.of_nat (length d)) 1 d)); [exact I | apply sls_refl | reflexivity | exact HP].
   - (* embed array *) unfold do_embed_array in *. destruct (final_type_size ty (regsize b)) as [ts|]; [|cbn in HOK; discriminate]. cbn [fst].
-    apply (step_one_node b b p g cur (data_node ty ts cnt rep d)); [exact I | apply sls_refl | reflexivity | exact HP | intros t; discriminate].
+    apply (step_one_node b b p g cur (data_node ty ts cnt rep d)); [exact I | apply sls_refl | reflexivity | exact HP].
   - destruct (valid_label_size sz); [|cbn in HOK; discriminate]. cbn [fst].
-    apply (step_one_node b b p g cur (mkNode (NEmbedLabel l sz) None)); [exact I | apply sls_refl | reflexivity | exact HP | intros t; discriminate].
+    apply (step_one_node b b p g cur (mkNode (NEmbedLabel l sz) None)); [exact I | apply sls_refl | reflexivity | exact HP].
   - destruct (valid_label_size sz); [|cbn in HOK; discriminate]. cbn [fst].
-    apply (step_one_node b b p g cur (mkNode (NEmbedDelta l b0 sz) None)); [exact I | apply sls_refl | reflexivity | exact HP | intros t; discriminate].
+    apply (step_one_node b b p g cur (mkNode (NEmbedDelta l b0 sz) None)); [exact I | apply sls_refl | reflexivity | exact HP].
   - (* const pool: align, bind, data *)
     destruct ((l <? 0) || (nlabels b <=? l)); [cbn in HOK; discriminate|].
     set (b1 := add_node (mkNode (NAlign kAlignData align) None) b) in *.
     destruct (do_bind l b1) as [b2 e] eqn:EB.
     destruct (e =? kOk) eqn:EE; [|cbn [snd] in HOK; subst e; discriminate].
-    apply Z.eqb_eq in EE. subst e. apply do_bind_ok in EB. cbn [fst].
+    apply Z.eqb_eq in EE. subst e. apply do_bind_ok in EB; [|exact HPL]. cbn [fst].
     change [EAlign kAlignData align; EBind l; EData kTypeUInt8 (Z.of_nat (length d)) 1 d]
-      with ([node_ecall (mkNode (NAlign kAlignData align) None)] ++ [node_ecall (label_node l)] ++ [node_ecall (data_node kTypeUInt8 1 (Z.of_nat (length d)) 1 d)]).
+      with (node_ecalls (mkNode (NAlign kAlignData align) None) ++ node_ecalls (label_node l) ++ node_ecalls (data_node kTypeUInt8 1 (Z.of_nat (length d)) 1 d)).
     eapply (step_goal_comp b1 p).
-    { apply (step_one_node b b p g cur); [exact I | apply sls_refl | reflexivity | exact HP | intros t; discriminate]. }
+    { apply (step_one_node b b p g cur); [exact I | apply sls_refl | reflexivity | exact HP]. }
     intros g1 I1 HP1. eapply (step_goal_comp b2 p).
-    { subst b2. apply (step_one_node b1 _ p g1); [exact I1 | unfold same_list_state; cbn; tauto | reflexivity | exact HP1 | intros t; discriminate]. }
+    { subst b2. apply (step_one_node b1 _ p g1); [exact I1 | unfold same_list_state; cbn; tauto | reflexivity | exact HP1]. }
     intros g2 I2 HP2.
-    apply (step_one_node b2 b2 p g2); [exact I2 | apply sls_refl | reflexivity | exact HP2 | intros t; discriminate].
-  - (* comment *) apply (step_one_node b b p g cur (mkNode NComment (Some c))); [exact I | apply sls_refl | reflexivity | exact HP | intros t; discriminate].
+    apply (step_one_node b2 b2 p g2); [exact I2 | apply sls_refl | reflexivity | exact HP2].
+  - (* comment *) apply (step_one_node b b p g cur (mkNode NComment (Some c))); [exact I | apply sls_refl | reflexivity | exact HP].
   - (* section *) apply step_section; assumption.
+  - (* const pool node *) destruct (l =? nlabels b); [|cbn in HOK; discriminate]. cbn [fst].
+    apply (step_one_node b (with_counts b (nlabels b + 1) (nsections b)) p g cur (mkNode (NConstPool l align d) None));
+      [exact I | unfold same_list_state; cbn; tauto | reflexivity | exact HP].
+  - (* sentinel *) apply (step_one_node b b p g cur (mkNode (NSentinel ty) None)); [exact I | apply sls_refl | reflexivity | exact HP].
 Qed.
 
 Fixpoint pend_run (p : pend) (cs : list cmd) : pend :=
   match cs with [] => p | c :: t => pend_run (fst (front p c)) t end.
 
-Lemma record_run : forall cs b p g cur, Inv b g cur -> pend_match b p -> Forall emitter cs -> all_ok b cs = true ->
+Lemma record_run : forall cs b p g cur, Inv b g cur -> pend_match b p -> pool b = [] -> Forall emitter cs -> all_ok b cs = true ->
   step_goal (run b cs) (pend_run p cs) g cur (trace_from p cs).
 Proof.
-  induction cs as [|c t IH]; intros b p g cur I HP HE HOK.
+  induction cs as [|c t IH]; intros b p g cur I HP HPL HE HOK.
   - cbn. apply (step_no_node b); [exact I | apply sls_refl | exact HP].
   - cbn [run pend_run trace_from all_ok] in *. apply andb_prop in HOK. destruct HOK as [H1 H2]. apply Z.eqb_eq in H1.
     inversion HE; subst.
-    pose proof (record_step b p g cur c I HP H3 H1) as HS.
+    pose proof (record_step b p g cur c I HP HPL H3 H1) as HS.
+    pose proof (pool_nil_step b c HPL H3) as HPL1.
     destruct (front p c) as [p' es] eqn:EF. cbn [fst snd] in *.
     eapply step_goal_comp; [exact HS|].
     intros g1 I1 HP1. apply IH; assumption.
@@ -470,7 +516,7 @@ Theorem replay_is_grouping : forall rs cs, Forall emitter cs -> all_ok (init_sta
   NoDup (sec_seq (active b)).
 Proof.
   intros rs cs HE HOK b.
-  destruct (record_run cs (init_state rs) pend0 [(0, [])] 0 (inv_init rs) (conj eq_refl (conj eq_refl (conj eq_refl eq_refl))) HE HOK)
+  destruct (record_run cs (init_state rs) pend0 [(0, [])] 0 (inv_init rs) (conj eq_refl (conj eq_refl (conj eq_refl eq_refl))) eq_refl HE HOK)
     as (g' & I & _ & T & D).
   destruct I as [IA IC II IN IND IL]. fold b in IA.
   split; [|split].
@@ -501,7 +547,7 @@ Lemma example_hypotheses : Forall emitter example_program /\ all_ok (init_state 
 Proof. split; [repeat constructor | vm_compute; reflexivity]. Qed.
 
 Lemma example_grouped :
-  map node_ecall (active (run (init_state 8) example_program)) <> trace example_program /\
+  flat_map node_ecalls (active (run (init_state 8) example_program)) <> trace example_program /\
   project 1 (trace example_program) = [EData 35 3 1 [1; 2; 3]; EBind 0; ELabel 0 8; EDelta 1 0 4].
 Proof. split; [vm_compute; discriminate | vm_compute; reflexivity]. Qed.
 
@@ -514,11 +560,12 @@ Fixpoint accepted (b : bstate) (cs : list cmd) : list cmd :=
   | c :: t => if snd (step b c) =? kOk then c :: accepted (fst (step b c)) t else accepted (fst (step b c)) t
   end.
 
-(* no const pool fails half way (its align node precedes the failing bind) *)
+(* no const pool fails half way (its align node precedes the failing bind) and no instruction is refused by strict validation (that
+   clears the one-shot state: BuilderProofs.rejected_emit_resets) *)
 Fixpoint no_partial_pool (b : bstate) (cs : list cmd) : Prop :=
   match cs with
   | [] => True
-  | c :: t => (match c with CConstPool _ _ _ => snd (step b c) = kOk | _ => True end) /\ no_partial_pool (fst (step b c)) t
+  | c :: t => (match c with CConstPool _ _ _ => snd (step b c) = kOk | CEmitRejected _ | CEndFunc => False | _ => True end) /\ no_partial_pool (fst (step b c)) t
   end.
 
 Lemma run_accepted : forall cs b, no_partial_pool b cs ->
@@ -531,7 +578,7 @@ Proof.
     intros HF. inversion HF; subst. constructor; [assumption|apply C; assumption].
   - apply Z.eqb_neq in E.
     assert (HN : fst (step b c) = b).
-    { apply rejected_call_is_noop; [exact E|]. intros l a d HC. subst c. apply E. exact H1. }
+    { apply rejected_call_is_noop; [exact E| | |]; [intros l a d HC; subst c; apply E; exact H1|intros e HC; subst c; exact H1|intros HC; subst c; exact H1]. }
     rewrite HN in *. destruct (IH b H2) as (A & B & C). split; [exact A|]. split; [exact B|].
     intros HF. inversion HF; subst. apply C; assumption.
 Qed.
